@@ -27,6 +27,8 @@ ID = "C08"
 RUNS = {"quick": 160, "thorough": 4000}
 WALL = {"quick": 1500, "thorough": 6 * 3600}
 OP_TIMEOUT = 300
+MIN_BUDGET = 36
+MIN_PER_SIG = 18
 LINT_APIS = ["linter", "linter", "linter", "orch_files", "orch_dir", "orch_files_par", "orch_dir_par", "cli"]
 
 
@@ -514,6 +516,10 @@ def _oneshot(run: _Run, i, op, seed_i):
 # ----------------------------------------------------------------------------- shrinking
 
 def shrink(sc: dict):
+    if sc.get("mirror"):
+        c = copy.deepcopy(sc)
+        c["mirror"] = False     # halves the cost of every later candidate unless the hash seed matters
+        yield c
     ops = sc["ops"]
     n = len(ops)
     size = max(1, n // 2)
@@ -542,10 +548,6 @@ def shrink(sc: dict):
             c = copy.deepcopy(sc)
             c["ops"][k]["order_tape"] = [0] * len(o["order_tape"])
             yield c
-    if sc.get("mirror"):
-        c = copy.deepcopy(sc)
-        c["mirror"] = False
-        yield c
 
 
 # ----------------------------------------------------------------------------- evidence
